@@ -573,4 +573,30 @@ def R6_units(ctx):
     common.unit_rule(ctx, "C11.R6", "unit typestate in StateModel get/set/add: get converts stored unit -> caller unit, set converts caller unit -> stored unit, the state write is in the stored unit", sel, floor=12)
 
 
-RULES = [R1_slot_table, R2_growth, R3_dense_index, R4_state_model, R5_overrides, R6_units]
+def R7_overrides_through_extend(ctx):
+    """C11.R7 the override list reaches the state model only through StateModel::extend"""
+    F = ctx.F
+    ctx.rule("C11.R7", "collect_features lists an overridden feature twice by design (model's entry, then the query's); only StateModel::extend gives such a list one slot per name (re-insert, last writer wins) — StateModel::new / CompactOrderedHashMap::new enumerate positions and would leave a gap and a slot past the end. Every workspace function that receives the list is StateModel::extend", floor=1)
+    CF = "routee_compass::app::search::search_app_ops::collect_features"
+    EXT = SM + "::extend"
+    n = 0
+    for p_, b in sorted(F.bodies.items()):
+        if not [c for c in b.calls() if c.callee == CF]:
+            continue
+        tm = Terms(b)
+        for c in b.calls():
+            if c.callee is None or c.callee == CF or re.sub(r"\{.*\}$", "", c.callee) not in F.bodies and c.callee not in F.bodies:
+                continue
+            args = [clean(tm.operand(a, c.bb)) for a in c.args]
+            if not any(contains(a, lambda q: q[0] == "call" and q[1] == CF) for a in args):
+                continue
+            # (calls that merely receive something computed from the extended model do not count: the list itself must be an argument)
+            direct = [i for i, a in enumerate(args) if a[0] == "call" and a[1] == CF]
+            if not direct:
+                continue
+            n += 1
+            ctx.check(c.callee == EXT and direct == [1], "%s:list->%s" % (short_fn_name(p_), short_fn_name(c.callee)), "the feature list of collect_features (which repeats overridden names) is handed to %s instead of StateModel::extend: positions are enumerated without merging repeated names" % short_fn_name(c.callee), c.where(), detail="self.state_model.extend(list)")
+    ctx.check(n >= 1, "extend-site", "no call that hands the collected feature list to the state model was found", None)
+
+
+RULES = [R1_slot_table, R2_growth, R3_dense_index, R4_state_model, R5_overrides, R6_units, R7_overrides_through_extend]
